@@ -866,6 +866,8 @@ pub fn c01(em: &mut Emit, thorough: bool, seed: u64) {
 }
 
 pub fn c02(em: &mut Emit, thorough: bool, seed: u64) {
+    // the entity the crate ships: files served with Range headers
+    crate::suites_fs::serve_over_files(em);
     let mut rng = Rng::new(seed ^ 0xC02);
     // corpus: F2
     {
